@@ -133,11 +133,25 @@ func (fv *FuncVerifier) findLoops() {
 		}
 	}
 	sort.Slice(headers, func(i, j int) bool { return headers[i].Index < headers[j].Index })
+	// loops reordered since the contracts were written (same header lines, another order): a
+	// "loop k" clause follows its loop, and obligations keep the contract's numbering
+	contractOrd := map[int]int{} // current ordinal -> contract ordinal
+	if fv.fc != nil && len(fv.fc.Loops) > 0 && inlineDepth == 0 {
+		if rm := loopRemap(fv.fn); rm != nil {
+			for k, i := range rm {
+				contractOrd[i] = k
+			}
+			fv.renamed = append(fv.renamed, "loops reordered; loop clauses follow their loops by header line")
+		}
+	}
 	for i, h := range headers {
 		li := fv.loops[h]
 		li.ord = i
+		if k, ok := contractOrd[i]; ok {
+			li.ord = k
+		}
 		if fv.fc != nil {
-			li.lc = fv.fc.Loops[i]
+			li.lc = fv.fc.Loops[li.ord]
 		}
 		fv.summarizeLoop(li)
 	}
